@@ -87,10 +87,18 @@ def check_C08(ctx, replay=None):
         dv = run_tlc(ctx, "Watermark", "MCWatermarkDev.cfg", workers=4, timeout=600, tags=(), expect_error=True)
         if dv.ok:
             raise core.ToolError("specification self-test failed: MCWatermarkDev.cfg (last report wins) should violate Complete")
+        # with the administrative operations (force / skip): Sound, Monotone, RestartNoRegress, PersistDurable still hold
+        exa = run_tlc(ctx, "Watermark", "MCWatermarkAdmin.cfg", workers=8, timeout=3000, tags=(), xmx="12g")
+        core.require_actions(exa, ["AdminForce", "AdminSkip"], "watermark admin")
+        _tlc_must_hold(ctx, exa, "c08:tlc-invariant")
     sims = []
     for rf in (1, 2, 3):
         cfg = core.make_cfg(ctx, "MCWatermarkSim.cfg", RF=rf)
         sims.append(run_tlc(ctx, "Watermark", cfg, workers=1, simulate=40 if quick else 700, depth=15, timeout=1200))
+        _tlc_must_hold(ctx, sims[-1], "c08:tlc-invariant")
+    for rf in (2, 3):
+        cfg = core.make_cfg(ctx, "MCWatermarkAdminSim.cfg", RF=rf)
+        sims.append(run_tlc(ctx, "Watermark", cfg, workers=1, simulate=25 if quick else 400, depth=15, timeout=1200))
         _tlc_must_hold(ctx, sims[-1], "c08:tlc-invariant")
     # stale-count histories from the exhaustive runs (a bounded number per replication factor) + the random walks
     cap = 150 if quick else 3000
@@ -113,7 +121,10 @@ def check_C08(ctx, replay=None):
                 "report first raises the event's on-disk count (set_confirmations) and then calls update_confirmation, the "
                 "watermark must be the specification's after every step; persist_bucket_state runs with hook points snapshotting "
                 "the confirmation directory between its steps, a crash restores the snapshot of that step, restart initialises a "
-                "fresh manager on it. distinct_nontrivial = (rf, crash points, persisted?) classes replayed.",
+                "fresh manager on it. Beyond the listed property the model also takes the administrative operations "
+                "(admin_force_watermark, admin_skip_event: advance only, persist at once, a crash inside that round may lose the "
+                "advance) and walks with them are replayed the same way. distinct_nontrivial = (rf, crash points, persisted?) "
+                "classes replayed.",
     }
     return finish(ctx, "model_checking", cov,
                   ["the on-disk confirmation count of an event is at least every count reported for it (write path order: "
@@ -245,7 +256,53 @@ def _replication(ctx, pid):
             seen.add(k)
             uniq.append((t, v))
     sim.prints = uniq[: (80 if quick else 1200)]
-    plans, n = _plans(ctx, [sim], "replication-plans.ndjson")
+    # catch-up: random walks hardly ever reach it, so the behaviours come from an exhaustive run that holds the first
+    # ReplicateWrite to one node back for ever (a legal delay) and emits the quiescent behaviours containing a catch-up
+    # attempt - including those where the catching-up replica coordinated a write itself and its log is ahead of its
+    # replicator (the served commit must then be refused, not appended at another sequence)
+    cu = run_tlc(ctx, "MCReplication", "MCReplicationCU.cfg", workers=10, timeout=3000, xmx="16g", tags=("REPLAY",), coverage=False)
+    _tlc_must_hold(ctx, cu, "%s:tlc-invariant" % key)
+    seen, ahead, plain = set(), [], []
+    for t, v in cu.prints:
+        k = json.dumps(v["steps"])
+        if k in seen:
+            continue
+        seen.add(k)
+        (ahead if any(st["op"] == "catchup" and st["ahead"] for st in v["steps"]) else plain).append((t, v))
+    if not ahead or not plain:
+        raise core.ToolError("vacuous catch-up generation: %d behaviours with a replica ahead of its replicator, %d without"
+                             % (len(ahead), len(plain)))
+    import random
+    rnd = random.Random(ctx.seed)
+    rnd.shuffle(ahead)
+    rnd.shuffle(plain)
+    cu.prints = ahead[: (40 if quick else 400)] + plain[: (60 if quick else 800)]
+    if not quick:
+        pin = run_tlc(ctx, "MCReplication", "MCReplicationPin.cfg", workers=10, timeout=3000, xmx="16g", tags=(), coverage=False,
+                      expect_error=True)
+        if pin.ok:
+            raise core.ToolError("specification self-test failed: MCReplicationPin.cfg (a commit served by catch-up is appended "
+                                 "wherever the replica's log ends) should violate OneConfirmedPerSeq")
+    # the coordinator itself: behaviours in which the last write is carried out by the REAL coordinator code
+    # (write/transaction.rs) with the process's ClusterActor as its one reachable replica - after a leader change, with
+    # the replica level with, ahead of (stale) or behind (buffered, then timeout) the new leader
+    sl = run_tlc(ctx, "MCReplication", "MCReplicationSlice.cfg", workers=4, timeout=1200, tags=("REPLAY",), coverage=False)
+    _tlc_must_hold(ctx, sl, "%s:tlc-invariant" % key)
+    seen, by = set(), {"ok": [], "stale": [], "buffered": []}
+    for t, v in sl.prints:
+        k = json.dumps(v["steps"])
+        if k in seen:
+            continue
+        seen.add(k)
+        reps = [st for st in v["steps"] if st["op"] == "rep" and st["tx"] == v["real_coordinator"]]
+        if reps and reps[0]["res"] in by:
+            by[reps[0]["res"]].append((t, v))
+    if not all(by.values()):
+        raise core.ToolError("vacuous coordinator slice: %s" % {k: len(v) for k, v in by.items()})
+    for v in by.values():
+        rnd.shuffle(v)
+    sl.prints = by["ok"][: (40 if quick else 400)] + by["stale"][: (30 if quick else 200)] + by["buffered"][: (2 if quick else 10)]
+    plans, n = _plans(ctx, [sim, cu, sl], "replication-plans.ndjson")
     binary = cargo_build(ctx, "h-cluster")
     hr = run_harness(ctx, binary, ["vcluster", plans], timeout=9000)
     for v in hr.violations:
@@ -260,7 +317,10 @@ def _replication(ctx, pid):
         "states": ex.distinct, "transitions": ex.generated + sim.generated,
         "traces_validated_against_impl": hr.stats["evaluations"], "samples": hr.stats.get("samples", []),
         "evaluations": hr.stats["evaluations"], "distinct_nontrivial": hr.stats["distinct_classes"],
-        "steps_replayed": hr.stats.get("steps_replayed"), "skipped_with_catchup": hr.stats.get("skipped_with_catchup"),
+        "steps_replayed": hr.stats.get("steps_replayed"), "with_catchup": hr.stats.get("with_catchup"),
+        "catchup_behaviours_generated": {"replica_ahead": len(ahead), "plain": len(plain)},
+        "with_real_coordinator": hr.stats.get("with_real_coordinator"),
+        "coordinator_slice_generated": {k: len(v) for k, v in by.items()},
         "rule": "Replication.tla models 3 nodes (logs, on-disk counts, replicator next/buffer, membership views), the coordinator of "
                 "transaction.rs (local append, ReplicateWrite fan-out to its view, reply counting, set_confirmations at the quorum, "
                 "ConfirmTransaction to the replicas that answered, late replies), the replica (sender check, replicator, "
@@ -271,14 +331,21 @@ def _replication(ctx, pid):
                 "virtual cluster of real Database directories and real PartitionReplicatorActors: local appends, ReplicateWrite "
                 "asks, set_confirmations_with_retry, the real ConfirmTransaction handler (ClusterActor switched to the replica's "
                 "database), close/reopen for crash/restart; every reply and finally every node's log and on-disk counts must be the "
-                "specification's, and the two properties are evaluated on the real final state.",
+                "specification's, and the two properties are evaluated on the real final state. Catch-up is replayed too: the real "
+                "replicator's catch-up is held back by a hook and released at the behaviour's step, served by the real "
+                "PartitionSyncRequest handler over the coordinator's database; behaviours in which the catching-up replica's own log "
+                "is ahead of its replicator (it coordinated a write through a divergent view) come from a dedicated exhaustive run. "
+                "The coordinator itself is bound by a third family: after a leader change (old leader's writes delivered, lost or "
+                "half-confirmed in every combination, then dead) the new leader's write is carried out by the real "
+                "write::transaction::spawn over its database with the real ClusterActor as the one reachable replica; the client "
+                "reply (acknowledged / error), the sequence, and the final logs and counts must be the specification's.",
     }
     return finish(ctx, "model_checking", cov,
-                  ["one ClusterActor per process: the coordinator's fan-out, reply counting and late-reply logic are decided on "
-                   "the specification and mirrored by the harness for rf = 3, not observed; the sender check of the ReplicateWrite "
-                   "handler is mirrored from the view",
-                   "a replica's Ok reply implies its append is durable (C01)",
-                   "behaviours with catch-up are model-checked but not replayed here (C12 replays the real catch-up)"])
+                  ["one ClusterActor per process: in the random-walk and catch-up families the coordinator's fan-out, reply "
+                   "counting and late-reply logic are decided on the specification and mirrored by the harness for rf = 3; the real "
+                   "coordinator runs in the coordinator-slice family, with one reachable replica (2 of 3); the sender check of the "
+                   "ReplicateWrite handler is mirrored from the view",
+                   "a replica's Ok reply implies its append is durable (C01)"])
 
 
 def check_C10(ctx, replay=None):
